@@ -7,7 +7,6 @@ import (
 	"fmt"
 	"math/rand"
 	"runtime"
-	"strings"
 	"sync"
 	"sync/atomic"
 	"testing"
@@ -49,6 +48,9 @@ func (r *c11Round) started(inst int) {
 	r.mu.Lock()
 	r.notes = append(r.notes, fmt.Sprintf("#%d PreStart of instance %d (live=%d)", s, inst, n))
 	r.mu.Unlock()
+	if inst > 8 {
+		inst = 8
+	}
 	switch r.dwell {
 	case 1:
 		runtime.Gosched()
@@ -320,7 +322,7 @@ func (e *c11Env) runRound(t *testing.T, k c11Knobs, seed int64) (obs c11Obs) {
 		if first.Err != "" || first.pid == nil {
 			t.Fatalf("initial spawn: %v", first.Err)
 		}
-		verifrt.WaitUntil(5*time.Second, func() bool { return c09Idle11(first.pid) })
+		verifrt.WaitUntil(5*time.Second, func() bool { return c11Idle(first.pid) })
 		kill()
 	case "kill-race":
 		// one instance exists; a Kill runs concurrently with the callers
@@ -440,10 +442,7 @@ func (e *c11Env) runRound(t *testing.T, k c11Knobs, seed int64) (obs c11Obs) {
 		}
 		// (3) settle: live instances vs registration
 		live := r.live.Load()
-		var reg *PID
-		if c := judgedName(e.sys, name, k.Kind == "child", e.parent); c != nil {
-			reg = c
-		}
+		reg := c11Registered(e.sys, name)
 		regRunning := int64(0)
 		if reg != nil && reg.IsRunning() {
 			regRunning = 1
@@ -469,16 +468,14 @@ func (e *c11Env) runRound(t *testing.T, k c11Knobs, seed int64) (obs c11Obs) {
 	return obs
 }
 
-// judgedName returns the pid registered for a name (child paths are looked up under the parent).
-func judgedName(sys *actorSystem, name string, child bool, parent *PID) *PID {
+// c11Registered returns the pid registered for a name (the name index also covers children).
+func c11Registered(sys *actorSystem, name string) *PID {
 	if n, ok := sys.tree().nodeByName(name); ok {
 		return n.value()
 	}
 	return nil
 }
 
-func c09Idle11(p *PID) bool {
+func c11Idle(p *PID) bool {
 	return p.mailbox.IsEmpty() && p.systemMailbox.IsEmpty() && p.schedState.v.Load() == dispatchIdle
 }
-
-var _ = strings.Contains
